@@ -1,13 +1,41 @@
 """Regenerates lean/TinyVerif/Gen/SqeCtors.lean from the `IoUringSubmissionQueueEntry::new_*`
 constructors of /repo/rusl/src/platform/compat/io_uring.rs: per constructor, which 64-byte SQE
-field gets which constant / parameter / cast of a parameter.  Anything the extractor does not
-understand raises Untranslatable (the check reports a broken obligation, never skips)."""
+field gets which constant / parameter / cast of a parameter.  Anything the translator does not
+understand raises Untranslatable (the check reports a broken obligation, never skips).
+
+The translator is a small parser + symbolic evaluator for a PURE expression fragment of Rust:
+
+  body    ::= `{` (`let` IDENT [`:` type] `=` expr `;`)* expr `}`          (also `unsafe { .. }`)
+  expr    ::= INT | path | expr `as` int-or-pointer-type | expr `.` field | expr `.` method `(` args `)`
+            | `if` expr block `else` block | `(` expr `)` | `[` expr `;` expr `]`
+            | path `(` args `)` | core::ptr::addr_of!(place)
+            | Struct `{` f `:` expr, f, ... [`..` expr] `}`
+  a call  is (1) `Self(rec)` — the tuple-struct wrapper,
+             (2) a call of a fn of this file (`Self::helper(..)` = an associated fn of `impl
+                 IoUringSubmissionQueueEntry` without `self`; `helper(..)` = a free fn of the file): INLINED — the body is
+                 evaluated with the argument values bound to the parameter names (parameters are plain identifiers; a `let`
+                 or an inner block that rebinds a name in scope is rejected; recursion is rejected), to any depth,
+             (3) one of the primitives the Lean side models (`unpack_dir_fd`, `core::ptr::from_ref::<T>`,
+                 `__BindgenUnionField::new/default`).
+  struct-update `S { f: e, .., ..base }`: `base` must evaluate to a record of the same struct; fields written explicitly
+  replace the base's (whole fields, as in Rust), every other field is the base's.
+
+Every accepted expression form is free of side effects, so evaluation order is irrelevant and substituting argument values for
+parameters is exact (Rust has no implicit integer conversion at a call).  The result of a constructor must be `Self(io_uring_sqe
+{..})` with exactly the 13 fields of the ABI struct, each assigned once after override resolution.  `as` casts: an integer /
+pointer cast to a type of w bytes preserves the value modulo 2^(8w); the Lean model (Src.arg: `any as cast is a truncation to
+the field width`) is exact iff every cast on the way to a field is at least as wide as the field — checked here, a narrower
+cast is Untranslatable.  The fidelity of the whole translation is checked on every run by the image correspondence of
+checks/c18.py (real constructors' bytes vs the Lean encoder over the regenerated table)."""
 import os
 import re
 
 REPO = os.environ.get("VERIF_REPO", "/repo")
 SRC = os.path.join(REPO, "rusl/src/platform/compat/io_uring.rs")
 OUT = os.path.join(os.path.dirname(os.path.dirname(os.path.abspath(__file__))), "lean/TinyVerif/Gen/SqeCtors.lean")
+
+IMPL_TYPE = "IoUringSubmissionQueueEntry"
+RECORD = "io_uring_sqe"
 
 
 class Untranslatable(Exception):
@@ -24,40 +52,18 @@ NAMED_CONSTS = {"AT_REMOVEDIR": 0x200, "IORING_TIMEOUT_ABS": 1}
 # struct-typed reference parameters whose fields a constructor may use: field -> (kind when read by value)
 STRUCT_FIELDS = {"&SocketArgUnix": {"addr": None, "addr_len": "u32"},
                  "&crate::platform::SendDropGuard": {"msghdr": None}}
+# functions the Lean side models as primitives (never inlined, whatever their body)
+PRIMITIVE_FNS = {"unpack_dir_fd"}
+# bytes of the target of an `as` cast (x86_64)
+CAST_BYTES = {"u8": 1, "i8": 1, "u16": 2, "i16": 2, "u32": 4, "i32": 4, "u64": 8, "i64": 8, "usize": 8, "isize": 8}
+FIELDS = ["opcode", "flags", "ioprio", "fd", "__bindgen_anon_1", "__bindgen_anon_2", "len", "__bindgen_anon_3", "user_data",
+          "__bindgen_anon_4", "personality", "__bindgen_anon_5", "__bindgen_anon_6"]
+MAX_INLINE_DEPTH = 8
 
 
 def strip_comments(s):
     s = re.sub(r"//[^\n]*", "", s)
     return re.sub(r"/\*.*?\*/", "", s, flags=re.S)
-
-
-def split_top(s, sep=","):
-    out, depth, cur = [], 0, ""
-    for ch in s:
-        if ch in "([{<":
-            depth += 1
-        elif ch in ")]}>":
-            depth -= 1
-        if ch == sep and depth == 0:
-            out.append(cur)
-            cur = ""
-        else:
-            cur += ch
-    if cur.strip():
-        out.append(cur)
-    return [x.strip() for x in out if x.strip()]
-
-
-def matching(s, i, open_ch, close_ch):
-    depth = 0
-    for j in range(i, len(s)):
-        if s[j] == open_ch:
-            depth += 1
-        elif s[j] == close_ch:
-            depth -= 1
-            if depth == 0:
-                return j
-    raise Untranslatable("unbalanced " + open_ch)
 
 
 def opcode_numbers(src):
@@ -77,70 +83,710 @@ def opcode_numbers(src):
     return out
 
 
-def parse_fields(body):
-    """`name: expr, name: expr {…}` at top level of a struct literal body"""
-    fields = {}
-    for item in split_top(body):
-        if re.fullmatch(r"\w+", item):      # field init shorthand
-            fields[item] = item
-            continue
-        m = re.match(r"(\w+)\s*:\s*(.*)$", item, flags=re.S)
+# ------------------------------------------------------------------------------------------------ tokens
+
+TOK_RE = re.compile(r"""
+   (?P<ws>\s+)
+ | (?P<lc>//[^\n]*)
+ | (?P<bc>/\*.*?\*/)
+ | (?P<str>b?r\#"(?:.*?)"\# | b?r"[^"]*" | b?"(?:[^"\\]|\\.)*")
+ | (?P<chr>b?'(?:[^'\\]|\\.[^']*)')
+ | (?P<life>'[A-Za-z_]\w*)
+ | (?P<int>0[xX][0-9a-fA-F_]+(?:[ui](?:8|16|32|64|128|size))?|0[bB][01_]+(?:[ui](?:8|16|32|64|128|size))?|\d[\d_]*(?:[ui](?:8|16|32|64|128|size))?)
+ | (?P<id>[A-Za-z_]\w*)
+ | (?P<p>::|->|=>|\.\.=|\.\.\.|\.\.|==|!=|<=|>=|&&|\|\||<<=|>>=|<<|>>|\+=|-=|\*=|/=|%=|\^=|&=|\|=|[-+*/%^!&|=<>@.,;:\#$?~\[\]{}()])
+""", re.X | re.S)
+
+OPEN = {"(": ")", "[": "]", "{": "}"}
+CLOSE = {")", "]", "}"}
+
+
+def tokenize(src):
+    """list of (kind, text); comments and white space dropped, string/char literals kept as single tokens"""
+    out = []
+    i, n = 0, len(src)
+    while i < n:
+        m = TOK_RE.match(src, i)
         if not m:
-            raise Untranslatable("field item: " + item[:60])
-        fields[m.group(1)] = " ".join(m.group(2).split())
-    return fields
-
-
-def nullary_helpers(src):
-    """`fn name() -> T { <one expression> }` defined in the file: name -> normalised body expression, so that a field
-    value written as `name()` is read as that expression (a refactoring that factors a repeated literal out)"""
-    out = {}
-    for m in re.finditer(r"(?:pub\s+)?(?:const\s+)?fn\s+(\w+)\s*\(\s*\)\s*->\s*[\w:<>]+\s*\{", src):
-        b0 = m.end() - 1
-        try:
-            b1 = matching(src, b0, "{", "}")
-        except Untranslatable:
-            continue
-        body = " ".join(src[b0 + 1:b1].split())
-        if ";" not in re.sub(r"\[[^\]\[]*\]", "[]", body) and "let " not in body:
-            out[m.group(1)] = body
+            raise Untranslatable("tokenizer: unexpected character %r at offset %d" % (src[i], i))
+        k = m.lastgroup
+        if k not in ("ws", "lc", "bc"):
+            out.append((k, m.group(k)))
+        i = m.end()
     return out
 
 
-def extract():
-    raw = open(SRC).read()
-    src = strip_comments(raw)
-    ops = opcode_numbers(src)
-    helpers = nullary_helpers(src)
-    ctors = []
-    for m in re.finditer(r"pub\s+(?:const\s+)?(?:unsafe\s+)?fn\s+(new_\w+)\s*\(", src):
-        name = m.group(1)
-        pe = matching(src, m.end() - 1, "(", ")")
-        params = []
-        for p in split_top(src[m.end():pe]):
-            pm = re.match(r"(\w+)\s*:\s*(.+)$", p, flags=re.S)
-            params.append((pm.group(1), " ".join(pm.group(2).split()).replace("& ", "&")))
-        rest = src[pe:]
-        if not re.match(r"\)\s*->\s*Self\s*\{", rest):
+def match_close(toks, i):
+    """index of the token closing the bracket opened at toks[i] (all three bracket kinds are tracked)"""
+    stack = []
+    for j in range(i, len(toks)):
+        k, t = toks[j]
+        if k != "p":
             continue
-        lit = rest.find("Self(io_uring_sqe {")
-        nxt = rest.find("fn ", 5)
-        if lit < 0 or (0 < nxt < lit):
-            raise Untranslatable(name + ": body is not a single io_uring_sqe literal")
-        b0 = rest.index("{", lit)
-        b1 = matching(rest, b0, "{", "}")
-        fields = parse_fields(rest[b0 + 1:b1])
-        for fn_, v in list(fields.items()):
-            hm = re.fullmatch(r"(?:Self::)?(\w+)\(\)", v)
-            if hm and hm.group(1) in helpers:
-                fields[fn_] = helpers[hm.group(1)]
-        ctors.append(build(name, params, fields, ops))
-    if not ctors:
-        raise Untranslatable("no constructors found")
-    return ctors
+        if t in OPEN:
+            stack.append(OPEN[t])
+        elif t in CLOSE:
+            if not stack or stack.pop() != t:
+                raise Untranslatable("unbalanced `%s`" % t)
+            if not stack:
+                return j
+    raise Untranslatable("unbalanced `%s`" % toks[i][1])
 
+
+def join_tokens(toks):
+    """source-like rendering: a blank only between two word-like tokens (`*mut T`, `&'a T`)"""
+    s = ""
+    prev_word = False
+    for k, t in toks:
+        word = k in ("id", "int", "life")
+        if word and prev_word:
+            s += " "
+        s += t
+        prev_word = word
+    return s
+
+
+def split_commas(toks):
+    """top-level comma split of a token list; `<`/`>` are counted as brackets too (type positions only)"""
+    out, cur, depth = [], [], 0
+    for k, t in toks:
+        if k == "p":
+            if t in OPEN or t == "<":
+                depth += 1
+            elif t in CLOSE or t == ">":
+                depth -= 1
+            elif t == ">>":
+                depth -= 2
+            elif t == "," and depth == 0:
+                out.append(cur)
+                cur = []
+                continue
+        cur.append((k, t))
+    if cur:
+        out.append(cur)
+    return out
+
+
+# ------------------------------------------------------------------------------------------------ items
+
+class Fn:
+    def __init__(self, name, vis, impl, params, ret, body, problem):
+        self.name, self.vis, self.impl, self.params, self.ret, self.body, self.problem = name, vis, impl, params, ret, body, problem
+        self.ast = None
+
+
+def strip_attrs(toks):
+    out, i = [], 0
+    while i < len(toks):
+        if toks[i] == ("p", "#") and i + 1 < len(toks) and toks[i + 1][1] in ("[", "!"):
+            j = i + 1
+            if toks[j][1] == "!":
+                j += 1
+            if j < len(toks) and toks[j][1] == "[":
+                i = match_close(toks, j) + 1
+                continue
+        out.append(toks[i])
+        i += 1
+    return out
+
+
+def header_kind(head):
+    """(kind, index of the keyword) of an item header (attributes already stripped)"""
+    i = 0
+    while i < len(head):
+        k, t = head[i]
+        if k == "id" and t in ("pub", "const", "unsafe", "async", "extern", "default"):
+            i += 1
+            if t == "pub" and i < len(head) and head[i][1] == "(":
+                i = match_close(head, i) + 1
+            continue
+        if k == "str":          # extern "C"
+            i += 1
+            continue
+        break
+    if i < len(head) and head[i][0] == "id" and head[i][1] in ("fn", "impl", "mod", "trait"):
+        return head[i][1], i
+    return "other", i
+
+
+def impl_target(head, ki):
+    """type name an `impl` header is for: `impl<..> [Trait for] path::Type<..>` -> Type"""
+    rest = head[ki + 1:]
+    if rest and rest[0][1] == "<":
+        depth = 0
+        for j, (k, t) in enumerate(rest):
+            if t == "<":
+                depth += 1
+            elif t == ">":
+                depth -= 1
+            elif t == ">>":
+                depth -= 2
+            if depth <= 0:
+                rest = rest[j + 1:]
+                break
+    depth = 0
+    for j, (k, t) in enumerate(rest):
+        if t == "<":
+            depth += 1
+        elif t == ">":
+            depth -= 1
+        elif t == ">>":
+            depth -= 2
+        elif depth == 0 and (k, t) == ("id", "for"):
+            rest = rest[j + 1:]
+            break
+    name = None
+    for k, t in rest:
+        if k == "id" and t == "where" or t == "<":
+            break
+        if k == "id":
+            name = t
+    return name
+
+
+def parse_fn_header(head, ki, body, impl):
+    """head[ki] is `fn`"""
+    name = head[ki + 1][1]
+    vis = join_tokens(head[:ki])
+    problem = None
+    j = ki + 2
+    if j < len(head) and head[j][1] == "<":
+        problem = "generic function"
+        depth = 0
+        while j < len(head):
+            t = head[j][1]
+            depth += {"<": 1, ">": -1, ">>": -2}.get(t, 0)
+            j += 1
+            if depth <= 0:
+                break
+    if j >= len(head) or head[j][1] != "(":
+        return Fn(name, vis, impl, [], "", body, "unreadable signature")
+    pe = match_close(head, j)
+    params = []
+    for ptoks in split_commas(head[j + 1:pe]):
+        if len(ptoks) >= 3 and ptoks[0][0] == "id" and ptoks[0][1] not in ("mut", "self", "ref") and ptoks[1] == ("p", ":"):
+            params.append((ptoks[0][1], join_tokens(ptoks[2:])))
+        else:
+            problem = problem or "parameter `%s` is not `name: Type`" % join_tokens(ptoks)
+            params.append((None, join_tokens(ptoks)))
+    ret = ""
+    rest = head[pe + 1:]
+    if rest and rest[0][1] == "->":
+        r = []
+        for k, t in rest[1:]:
+            if (k, t) == ("id", "where"):
+                problem = problem or "where clause"
+                break
+            r.append((k, t))
+        ret = join_tokens(r)
+    elif rest:
+        problem = problem or "unreadable signature"
+    return Fn(name, vis, impl, params, ret, body, problem)
+
+
+def scan_items(toks):
+    """all fn items of the file that are free functions (top level) or associated functions of a top-level impl block:
+    list of Fn (impl = the impl's type name or None); nested modules, traits and function bodies are not entered"""
+    fns = []
+
+    def scan(lo, hi, impl):
+        i = start = lo
+        while i < hi:
+            k, t = toks[i]
+            if k == "p" and t == ";":
+                start = i + 1
+            elif k == "p" and t in ("(", "["):
+                i = match_close(toks, i)
+            elif k == "p" and t == "{":
+                j = match_close(toks, i)
+                head = strip_attrs(toks[start:i])
+                kind, ki = header_kind(head)
+                if kind == "fn" and ki + 1 < len(head):
+                    fns.append(parse_fn_header(head, ki, toks[i:j + 1], impl))
+                elif kind == "impl" and impl is None:
+                    scan(i + 1, j, impl_target(head, ki) or "?")
+                i = j
+                start = j + 1
+            i += 1
+
+    scan(0, len(toks), None)
+    return fns
+
+
+# ------------------------------------------------------------------------------------------------ expressions
+
+BINOPS = {"+", "-", "*", "/", "%", "^", "&", "|", "&&", "||", "<<", ">>", "==", "!=", "<", ">", "<=", ">=", "=", "+=", "-=", "*=",
+          "/=", "%=", "^=", "&=", "|=", "<<=", ">>=", "..", "..=", "?"}
+KEYWORD_EXPRS = {"match", "loop", "while", "for", "return", "break", "continue", "move", "async", "let", "const", "static", "fn",
+                 "struct", "enum", "use", "impl", "type", "trait", "mod", "dyn", "ref", "mut", "await", "yield", "where"}
+
+
+class Parser:
+    """recursive descent over a token list; every form outside the fragment raises Untranslatable naming it"""
+
+    def __init__(self, toks, where):
+        self.t = toks
+        self.i = 0
+        self.where = where
+
+    def fail(self, msg):
+        raise Untranslatable("%s: %s (near `%s`)" % (self.where, msg, join_tokens(self.t[max(0, self.i - 3):self.i + 5])))
+
+    def peek(self, off=0):
+        j = self.i + off
+        return self.t[j] if j < len(self.t) else ("eof", "")
+
+    def at(self, text):
+        return self.peek()[0] in ("p", "id") and self.peek()[1] == text
+
+    def eat(self, text):
+        if not self.at(text):
+            self.fail("expected `%s`" % text)
+        self.i += 1
+
+    def ident(self):
+        k, t = self.peek()
+        if k != "id":
+            self.fail("expected an identifier")
+        self.i += 1
+        return t
+
+    # ---- types (after `as`, in `let x: T`)
+    def ty(self):
+        start = self.i
+        if self.at("*"):
+            self.i += 1
+            if not (self.at("const") or self.at("mut")):
+                self.fail("raw pointer type")
+            self.i += 1
+            self.ty()
+        elif self.at("&"):
+            self.i += 1
+            if self.peek()[0] == "life":
+                self.i += 1
+            if self.at("mut"):
+                self.i += 1
+            self.ty()
+        else:
+            if self.at("::"):
+                self.i += 1
+            self.ident()
+            while True:
+                if self.at("::"):
+                    self.i += 1
+                    if self.at("<"):
+                        self.generics()
+                    else:
+                        self.ident()
+                elif self.at("<"):
+                    self.generics()
+                else:
+                    break
+        return join_tokens(self.t[start:self.i])
+
+    def generics(self):
+        """balanced `<..>` at self.i; returns its text"""
+        start = self.i
+        depth = 0
+        while True:
+            k, t = self.peek()
+            if k == "eof":
+                self.fail("unbalanced `<`")
+            if k == "p":
+                if t == "<":
+                    depth += 1
+                elif t == ">":
+                    depth -= 1
+                elif t == ">>":
+                    depth -= 2
+                elif t in OPEN:
+                    self.i = match_close(self.t, self.i)
+                elif t in (";", "{", "}"):
+                    self.fail("unbalanced `<`")
+            self.i += 1
+            if depth <= 0:
+                break
+        if depth < 0:
+            self.fail("unbalanced `>`")
+        return join_tokens(self.t[start:self.i])
+
+    # ---- blocks
+    def block(self):
+        """`{ (let x [: T] = e;)* e }` -> ("block", [(name, expr)], expr)"""
+        self.eat("{")
+        lets = []
+        while self.at("let"):
+            self.i += 1
+            if self.at("mut"):
+                self.fail("`let mut` is outside the translatable fragment")
+            if self.peek()[0] != "id" or self.peek()[1] in ("ref", "_") or self.peek(1)[1] not in (":", "="):
+                self.fail("`let` with a pattern is outside the translatable fragment")
+            name = self.ident()
+            if self.at(":"):
+                self.i += 1
+                self.ty()
+            self.eat("=")
+            e = self.expr()
+            if self.at("else"):
+                self.fail("`let .. else` is outside the translatable fragment")
+            if not self.at(";"):
+                self.fail("expected `;` after the `let` initialiser")
+            self.i += 1
+            lets.append((name, e))
+        if self.at("}"):
+            self.fail("block without a final expression")
+        e = self.expr()
+        if self.at(";"):
+            self.fail("expression statement `..;` is outside the translatable fragment (only `let x = e;` before the final expression)")
+        self.eat("}")
+        return ("block", lets, e)
+
+    # ---- expressions
+    def expr(self, no_struct=False):
+        e = self.postfix(no_struct)
+        while self.at("as"):
+            self.i += 1
+            e = ("cast", e, self.ty())
+        k, t = self.peek()
+        if k == "p" and t in BINOPS:
+            self.fail("operator `%s` is outside the translatable fragment" % t)
+        return e
+
+    def args(self):
+        """`( e, e, .. )` at self.i"""
+        self.eat("(")
+        out = []
+        while not self.at(")"):
+            out.append(self.expr())
+            if self.at(","):
+                self.i += 1
+            elif not self.at(")"):
+                self.fail("expected `,` or `)` in an argument list")
+        self.i += 1
+        return out
+
+    def postfix(self, no_struct):
+        e = self.primary(no_struct)
+        while True:
+            if self.at("."):
+                self.i += 1
+                k, t = self.peek()
+                if k == "int" and re.fullmatch(r"\d+", t):
+                    self.i += 1
+                    e = ("field", e, t)
+                elif k == "id" and t != "await":
+                    self.i += 1
+                    if self.at("("):
+                        e = ("mcall", e, t, self.args())
+                    elif self.at("::"):
+                        self.fail("method call with a turbofish is outside the translatable fragment")
+                    else:
+                        e = ("field", e, t)
+                else:
+                    self.fail("unexpected token after `.`")
+            elif self.at("(") or self.at("["):
+                self.fail("call / index of a computed value is outside the translatable fragment")
+            else:
+                return e
+
+    def primary(self, no_struct):
+        k, t = self.peek()
+        if k == "int":
+            self.i += 1
+            m = re.fullmatch(r"(0[xX][0-9a-fA-F_]+?|0[bB][01_]+?|\d[\d_]*?)(?:[ui](?:8|16|32|64|128|size))?", t)
+            return ("int", int(m.group(1).replace("_", ""), 0))
+        if k in ("str", "chr", "life"):
+            self.fail("literal `%s` is outside the translatable fragment" % t[:20])
+        if k == "p":
+            if t == "(":
+                self.i += 1
+                if self.at(")"):
+                    self.fail("unit value")
+                e = self.expr()
+                if not self.at(")"):
+                    self.fail("tuple or unbalanced parenthesis")
+                self.i += 1
+                return e
+            if t == "[":
+                self.i += 1
+                e = self.expr()
+                if not self.at(";"):
+                    self.fail("array literal other than `[e; n]`")
+                self.i += 1
+                n = self.expr()
+                self.eat("]")
+                return ("repeat", e, n)
+            if t == "{":
+                return self.block()
+            if t in ("-", "!", "*", "&", "&&", "|", "||"):
+                self.fail("unary operator / closure `%s` is outside the translatable fragment" % t)
+            if t not in ("::",):
+                self.fail("unexpected `%s`" % t)
+        if k == "id":
+            if t == "if":
+                self.i += 1
+                if self.at("let"):
+                    self.fail("`if let` is outside the translatable fragment")
+                c = self.expr(no_struct=True)
+                a = self.block()
+                if not self.at("else"):
+                    self.fail("`if` without `else`")
+                self.i += 1
+                b = ("block", [], self.primary(False)) if self.at("if") else self.block()
+                return ("if", c, a, b)
+            if t == "unsafe" and self.peek(1)[1] == "{":
+                self.i += 1
+                return self.block()
+            if t in KEYWORD_EXPRS:
+                self.fail("`%s` is outside the translatable fragment" % t)
+        if k == "eof":
+            self.fail("unexpected end")
+        # path
+        segs, generics = [], None
+        if self.at("::"):
+            self.i += 1
+        if self.at("<"):
+            self.fail("qualified path `<T as Trait>::..` is outside the translatable fragment")
+        segs.append(self.ident())
+        while self.at("::"):
+            self.i += 1
+            if self.at("<"):
+                if generics is not None:
+                    self.fail("two generic argument lists in one path")
+                generics = self.generics()
+            else:
+                if generics is not None:
+                    self.fail("generic arguments in the middle of a path")
+                segs.append(self.ident())
+        if self.at("!"):
+            self.i += 1
+            if self.peek()[1] not in OPEN:
+                self.fail("macro invocation")
+            j = match_close(self.t, self.i)
+            inner = self.t[self.i + 1:j]
+            self.i = j + 1
+            return ("macro", segs, inner)
+        if self.at("("):
+            return ("call", segs, generics, self.args())
+        if self.at("{") and not no_struct:
+            if generics is not None:
+                self.fail("struct literal with generic arguments")
+            return self.struct(segs)
+        if generics is not None:
+            self.fail("generic path used as a value")
+        return ("path", segs)
+
+    def struct(self, segs):
+        self.eat("{")
+        fields, base = [], None
+        while not self.at("}"):
+            if self.at(".."):
+                self.i += 1
+                if self.at("}"):
+                    self.fail("`..` without a base expression")
+                base = self.expr()
+                if not self.at("}"):
+                    self.fail("the base of a struct update must come last")
+                break
+            if self.peek()[0] != "id":
+                self.fail("field name expected in a struct literal")
+            name = self.ident()
+            if self.at(":"):
+                self.i += 1
+                fields.append((name, self.expr()))
+            else:
+                fields.append((name, ("path", [name])))        # field init shorthand
+            if self.at(","):
+                self.i += 1
+            elif not self.at("}"):
+                self.fail("expected `,` or `}` in a struct literal")
+        self.eat("}")
+        return ("struct", segs, fields, base)
+
+
+def parse_body(fn, where):
+    if fn.ast is None:
+        p = Parser(fn.body, where)
+        fn.ast = p.block()
+        if p.i != len(fn.body):
+            p.fail("trailing tokens after the function body")
+    return fn.ast
+
+
+# ------------------------------------------------------------------------------------------------ evaluation (inlining)
+
+def show(v):
+    """readable rendering of a value / expression for messages"""
+    k = v[0]
+    if k == "int":
+        return str(v[1])
+    if k in ("param", "named"):
+        return v[1]
+    if k == "path":
+        return "::".join(v[1])
+    if k == "cast":
+        return "%s as %s" % (show(v[1]), v[2])
+    if k == "field":
+        return "%s.%s" % (show(v[1]), v[2])
+    if k == "mcall":
+        return "%s.%s(%s)" % (show(v[1]), v[2], ", ".join(show(a) for a in v[3]))
+    if k == "call":
+        return "%s%s(%s)" % ("::".join(v[1]), "::" + v[2] if v[2] else "", ", ".join(show(a) for a in v[3]))
+    if k == "if":
+        return "if %s { %s } else { %s }" % (show(v[1]), show(v[2]), show(v[3]))
+    if k == "addr_of":
+        return "addr_of!(%s)" % show(v[1])
+    if k == "repeat":
+        return "[%s; %s]" % (show(v[1]), show(v[2]))
+    if k == "rec":
+        return "%s { %s }" % (v[1], ", ".join("%s: %s" % (f, show(x)) for f, x in v[2].items()))
+    if k == "wrap":
+        return "Self(%s)" % show(v[1])
+    return str(v)[:80]
+
+
+class Evaluator:
+    def __init__(self, fns, ctor):
+        self.impl_fns, self.free_fns = {}, {}
+        for f in fns:
+            if f.impl == IMPL_TYPE:
+                self.impl_fns.setdefault(f.name, []).append(f)
+            elif f.impl is None:
+                self.free_fns.setdefault(f.name, []).append(f)
+        self.ctor = ctor
+        self.inlined = []           # helper fns the constructor's value went through, in evaluation order
+        self.struct_updates = 0
+        self.lets = 0
+
+    def fail(self, msg):
+        raise Untranslatable("%s: %s" % (self.ctor, msg))
+
+    def resolve(self, segs):
+        """the fn of this file a call path names, or None"""
+        if len(segs) == 2 and segs[0] in ("Self", IMPL_TYPE) and segs[1] in self.impl_fns:
+            cands = self.impl_fns[segs[1]]
+        elif len(segs) == 1 and segs[0] in self.free_fns and segs[0] not in PRIMITIVE_FNS:
+            cands = self.free_fns[segs[0]]
+        else:
+            return None
+        if len(cands) != 1:
+            self.fail("%d definitions of `%s` in the file (cfg variants?): cannot tell which one is called" % (len(cands), "::".join(segs)))
+        return cands[0]
+
+    def block(self, b, env, stack):
+        env = dict(env)
+        for name, e in b[1]:
+            if name in env or name in NAMED_CONSTS:
+                self.fail("`let %s` rebinds a name that is already in scope (shadowing is outside the translatable fragment)" % name)
+            env[name] = self.ev(e, env, stack)
+            self.lets += 1
+        return self.ev(b[2], env, stack)
+
+    def inline(self, fn, args, stack):
+        label = ("Self::" if fn.impl else "") + fn.name
+        if fn.problem:
+            self.fail("call of `%s`: %s" % (label, fn.problem))
+        if fn.name in [s for s in stack]:
+            self.fail("call of `%s`: recursion" % label)
+        if len(stack) >= MAX_INLINE_DEPTH:
+            self.fail("call of `%s`: helpers nested deeper than %d" % (label, MAX_INLINE_DEPTH))
+        if len(args) != len(fn.params):
+            self.fail("call of `%s` with %d arguments for %d parameters" % (label, len(args), len(fn.params)))
+        names = [p for p, _ in fn.params]
+        if len(set(names)) != len(names):
+            self.fail("call of `%s`: duplicate parameter names" % label)
+        for p in names:
+            if p in NAMED_CONSTS:
+                self.fail("call of `%s`: parameter `%s` hides a constant" % (label, p))
+        body = parse_body(fn, "%s: helper `%s`" % (self.ctor, label))
+        self.inlined.append(label)
+        # lexical scoping: the helper sees its own parameters only
+        return self.block(body, dict(zip(names, args)), stack + [fn.name])
+
+    def ev(self, e, env, stack):
+        k = e[0]
+        if k == "int":
+            return e
+        if k == "path":
+            segs = e[1]
+            if len(segs) == 1:
+                if segs[0] in env:
+                    return env[segs[0]]
+                if segs[0] in NAMED_CONSTS:
+                    return ("named", segs[0])
+                self.fail("identifier `%s` is neither a parameter, a `let` binding in scope nor a known constant" % segs[0])
+            return e
+        if k == "cast":
+            return ("cast", self.scalar(self.ev(e[1], env, stack), "operand of `as`"), e[2])
+        if k == "field":
+            return ("field", self.scalar(self.ev(e[1], env, stack), "receiver of `.%s`" % e[2]), e[2])
+        if k == "mcall":
+            return ("mcall", self.scalar(self.ev(e[1], env, stack), "receiver of `.%s()`" % e[2]), e[2],
+                    [self.scalar(self.ev(a, env, stack), "method argument") for a in e[3]])
+        if k == "if":
+            return ("if", self.scalar(self.ev(e[1], env, stack), "condition"), self.block(e[2], env, stack), self.block(e[3], env, stack))
+        if k == "block":
+            return self.block(e, env, stack)
+        if k == "repeat":
+            return ("repeat", self.ev(e[1], env, stack), self.ev(e[2], env, stack))
+        if k == "macro":
+            if e[1] not in (["core", "ptr", "addr_of"], ["ptr", "addr_of"], ["addr_of"]):
+                self.fail("macro `%s!` is outside the translatable fragment" % "::".join(e[1]))
+            p = Parser(e[2], "%s: addr_of!" % self.ctor)
+            inner = p.expr()
+            if p.i != len(e[2]):
+                p.fail("trailing tokens")
+            return ("addr_of", self.ev(inner, env, stack))
+        if k == "struct":
+            tyname = e[1][-1]
+            if len(e[1]) != 1 or tyname in ("Self", IMPL_TYPE):
+                self.fail("struct literal of `%s`: only the binding structs are translatable" % "::".join(e[1]))
+            fields = {}
+            for f, x in e[2]:
+                if f in fields:
+                    self.fail("field `%s` written twice in one `%s` literal" % (f, tyname))
+                fields[f] = self.ev(x, env, stack)
+            if e[3] is not None:
+                base = self.ev(e[3], env, stack)
+                if base[0] != "rec" or base[1] != tyname:
+                    self.fail("struct update `..%s`: the base is not a translatable `%s` value" % (show(e[3])[:60], tyname))
+                merged = dict(base[2])          # the base's fields, then the explicit ones replace them (whole fields)
+                merged.update(fields)
+                fields = merged
+                self.struct_updates += 1
+            return ("rec", tyname, fields)
+        if k == "call":
+            segs, generics = e[1], e[2]
+            args = [self.ev(a, env, stack) for a in e[3]]
+            if segs in (["Self"], [IMPL_TYPE]) and generics is None:
+                if len(args) != 1 or args[0][0] != "rec" or args[0][1] != RECORD:
+                    self.fail("`%s(..)` is not applied to one `%s` value" % (segs[0], RECORD))
+                return ("wrap", args[0])
+            fn = self.resolve(segs)
+            if fn is not None:
+                if generics is not None:
+                    self.fail("call of `%s` with generic arguments" % "::".join(segs))
+                return self.inline(fn, args, stack)
+            if segs == ["__BindgenUnionField", "new"] or segs == ["__BindgenUnionField", "default"]:
+                if args or generics:
+                    self.fail("`%s` with arguments" % "::".join(segs))
+                return ("call", segs, None, [])
+            if segs == ["unpack_dir_fd"] or segs in (["core", "ptr", "from_ref"], ["ptr", "from_ref"]):
+                return ("call", segs, generics, [self.scalar(a, "argument of `%s`" % segs[-1]) for a in args])
+            self.fail("call of `%s`: neither a function defined in this file (free, or associated to %s) nor a primitive the model knows"
+                      % ("::".join(segs), IMPL_TYPE))
+        self.fail("expression form `%s` is outside the translatable fragment" % k)
+
+    def scalar(self, v, what):
+        if v[0] in ("rec", "wrap"):
+            self.fail("%s is a struct value (`%s`): outside the translatable fragment" % (what, show(v)[:60]))
+        return v
+
+
+# ------------------------------------------------------------------------------------------------ one constructor
 
 def build(name, params, fields, ops):
+    """params: [(name, type)]; fields: field name -> evaluated value (leaves are ("param", p))"""
     operands = []      # (name, kind)
     index = {}
 
@@ -161,64 +807,93 @@ def build(name, params, fields, ops):
         else:
             raise Untranslatable("%s: parameter type %s" % (name, pt))
 
-    def const_of(e):
-        e = e.strip()
-        if re.fullmatch(r"\d+", e):
-            return int(e)
-        m = re.fullmatch(r"(\w+)(?:\.into_u32\(\))?(?: as u32)?", e)
-        if m and m.group(1) in NAMED_CONSTS:
-            return NAMED_CONSTS[m.group(1)]
-        raise Untranslatable("%s: constant %s" % (name, e))
+    def peel(v, width):
+        """strips `as` casts; each must keep at least `width` low bytes intact"""
+        while v[0] == "cast":
+            ty = v[2]
+            w = 8 if (ty.startswith("*const ") or ty.startswith("*mut ")) else CAST_BYTES.get(ty)
+            if w is None:
+                raise Untranslatable("%s: cast to `%s` is outside the translatable fragment" % (name, ty))
+            if w < width:
+                raise Untranslatable("%s: `%s` narrows to %d bytes before a %d-byte field: the model's cast rule (truncation to the field "
+                                     "width) does not describe it" % (name, show(v), w, width))
+            v = v[1]
+        return v
 
-    def tr(e):
-        e = e.strip()
-        while True:
-            m = re.fullmatch(r"(.+) as (?:u64|u32|i32|u16|u8)", e)
-            if not m:
-                break
-            e = m.group(1).strip()
-        if re.fullmatch(r"\d+", e):
-            return "(.const %d)" % int(e)
-        m = re.fullmatch(r"IoUringOp::(\w+)", e)
-        if m:
-            return "(.const %d)" % ops[m.group(1)]
-        m = re.fullmatch(r"unpack_dir_fd\((\w+)\)", e)
-        if m and ptypes.get(m.group(1)) == "Option<Fd>":
-            return "(.optFd %d)" % index[m.group(1)]
-        m = re.fullmatch(r"(\w+)\.unwrap_or_default\(\)", e)
-        if m and ptypes.get(m.group(1)) == "Option<u64>":
-            return "(.optU64 %d)" % index[m.group(1)]
-        m = re.fullmatch(r"if (\w+) \{ (.+?) \} else \{ (.+?) \}", e)
-        if m and ptypes.get(m.group(1)) == "bool":
-            return "(.ite %d %d %d)" % (index[m.group(1)], const_of(m.group(2)), const_of(m.group(3)))
-        m = re.fullmatch(r"core::ptr::addr_of!\((\w+)\.(\w+)\)", e)
-        if m and ptypes.get(m.group(1)) in STRUCT_FIELDS and m.group(2) in STRUCT_FIELDS[ptypes[m.group(1)]]:
-            return "(.arg %d)" % operand("%s.%s@ptr" % (m.group(1), m.group(2)), "ptr")
-        m = re.fullmatch(r"(\w+)\.(\w+)", e)
-        if m and ptypes.get(m.group(1)) in STRUCT_FIELDS and STRUCT_FIELDS[ptypes[m.group(1)]].get(m.group(2)):
-            return "(.arg %d)" % operand("%s.%s" % (m.group(1), m.group(2)), STRUCT_FIELDS[ptypes[m.group(1)]][m.group(2)])
-        m = re.fullmatch(r"core::ptr::from_ref::<\w+>\((\w+)\)", e)
-        if m and m.group(1) in index:
-            return "(.arg %d)" % index[m.group(1)]
-        m = re.fullmatch(r"(\w+)(\.0\.as_ptr\(\)|\.0|\.value\(\)|\.bits\(\)\.into_u32\(\)|\.bits\(\))?", e)
-        if m and m.group(1) in index:
-            return "(.arg %d)" % index[m.group(1)]
-        raise Untranslatable("%s: expression `%s`" % (name, e))
+    def const_of(v, width):
+        v = peel(v, width)
+        if v[0] == "mcall" and v[2] == "into_u32" and not v[3]:
+            v = peel(v[1], width)
+        if v[0] == "int":
+            return v[1]
+        if v[0] == "named":
+            return NAMED_CONSTS[v[1]]
+        raise Untranslatable("%s: constant %s" % (name, show(v)))
+
+    def is_param(v, pred=None):
+        return v[0] == "param" and v[1] in ptypes and (pred is None or pred(ptypes[v[1]]))
+
+    def tr(v, width):
+        whole = v
+        v = peel(v, width)
+        k = v[0]
+        if k == "int":
+            return "(.const %d)" % v[1]
+        if k == "named":
+            return "(.const %d)" % NAMED_CONSTS[v[1]]
+        if k == "path" and len(v[1]) == 2 and v[1][0] == "IoUringOp":
+            if v[1][1] not in ops:
+                raise Untranslatable("%s: opcode %s has no number in the bindings" % (name, show(v)))
+            return "(.const %d)" % ops[v[1][1]]
+        if k == "call" and v[1] == ["unpack_dir_fd"] and len(v[3]) == 1 and is_param(v[3][0], lambda t: t == "Option<Fd>"):
+            return "(.optFd %d)" % index[v[3][0][1]]
+        if k == "mcall" and v[2] == "unwrap_or_default" and not v[3] and is_param(v[1], lambda t: t == "Option<u64>"):
+            return "(.optU64 %d)" % index[v[1][1]]
+        if k == "if" and is_param(v[1], lambda t: t == "bool"):
+            return "(.ite %d %d %d)" % (index[v[1][1]], const_of(v[2], width), const_of(v[3], width))
+        if k == "addr_of":
+            p = v[1]
+            if p[0] == "field" and is_param(p[1], lambda t: t in STRUCT_FIELDS) and p[2] in STRUCT_FIELDS[ptypes[p[1][1]]]:
+                return "(.arg %d)" % operand("%s.%s@ptr" % (p[1][1], p[2]), "ptr")
+        if k == "field" and is_param(v[1], lambda t: t in STRUCT_FIELDS) and STRUCT_FIELDS[ptypes[v[1][1]]].get(v[2]):
+            return "(.arg %d)" % operand("%s.%s" % (v[1][1], v[2]), STRUCT_FIELDS[ptypes[v[1][1]]][v[2]])
+        if k == "call" and v[1][-1] == "from_ref" and v[2] and len(v[3]) == 1 and is_param(v[3][0]) and v[3][0][1] in index \
+                and ptypes[v[3][0][1]] == "&" + v[2].strip("<>"):
+            return "(.arg %d)" % index[v[3][0][1]]
+        # a parameter, possibly through the accessor of its newtype / flags type
+        base = None
+        if k == "param":
+            base = v
+        elif k == "field" and v[2] == "0":
+            base = v[1]                                                         # x.0
+        elif k == "mcall" and not v[3] and v[2] in ("value", "bits"):
+            base = v[1]                                                         # x.value()  x.bits()
+        elif k == "mcall" and not v[3] and v[2] == "as_ptr" and v[1][0] == "field" and v[1][2] == "0":
+            base = v[1][1]                                                      # x.0.as_ptr()
+        elif k == "mcall" and not v[3] and v[2] == "into_u32" and v[1][0] == "mcall" and v[1][2] == "bits" and not v[1][3]:
+            base = v[1][1]                                                      # x.bits().into_u32()
+        if base is not None and base[0] == "param" and base[1] in index:
+            return "(.arg %d)" % index[base[1]]
+        raise Untranslatable("%s: expression `%s`" % (name, show(whole)))
 
     def union(fname, allowed):
         v = fields[fname]
-        m = re.fullmatch(r"\w+ \{ (\w+): (.+?),? \}", v)
-        if not m or m.group(1) not in allowed:
-            raise Untranslatable("%s: union %s = %s" % (name, fname, v))
-        return m.group(1), m.group(2)
+        if v[0] != "rec" or len(v[2]) != 1 or next(iter(v[2])) not in allowed:
+            raise Untranslatable("%s: union %s = %s" % (name, fname, show(v)))
+        return next(iter(v[2].items()))
 
-    want = {"opcode", "flags", "ioprio", "fd", "__bindgen_anon_1", "__bindgen_anon_2", "len", "__bindgen_anon_3", "user_data",
-            "__bindgen_anon_4", "personality", "__bindgen_anon_5", "__bindgen_anon_6"}
+    want = set(FIELDS)
     if set(fields) != want:
         raise Untranslatable("%s: fields %s" % (name, sorted(set(fields) ^ want)))
-    if not re.fullmatch(r"io_uring_sqe__bindgen_ty_6 \{ __bindgen_anon_1: __BindgenUnionField::(new|default)\(\), cmd: __BindgenUnionField::(new|default)\(\), bindgen_union_field: \[0; 2\],? \}",
-                        fields["__bindgen_anon_6"]):
-        raise Untranslatable("%s: tail union is not zero: %s" % (name, fields["__bindgen_anon_6"]))
+    tail = fields["__bindgen_anon_6"]
+    zero_member = lambda x: x[0] == "call" and x[1] in (["__BindgenUnionField", "new"], ["__BindgenUnionField", "default"]) and not x[3]
+    if not (tail[0] == "rec" and tail[1] == "io_uring_sqe__bindgen_ty_6" and list(tail[2]) == ["__bindgen_anon_1", "cmd", "bindgen_union_field"]
+            and zero_member(tail[2]["__bindgen_anon_1"]) and zero_member(tail[2]["cmd"])
+            and tail[2]["bindgen_union_field"] == ("repeat", ("int", 0), ("int", 2))):
+        raise Untranslatable("%s: tail union is not zero: %s" % (name, show(tail)))
+    for f in ("opcode", "flags", "ioprio", "fd", "len", "user_data", "personality"):
+        if fields[f][0] in ("rec", "wrap"):
+            raise Untranslatable("%s: field %s = %s" % (name, f, show(fields[f])[:60]))
     offn, offe = union("__bindgen_anon_1", {"off", "addr2"})
     _, addre = union("__bindgen_anon_2", {"addr", "splice_off_in"})
     u3 = {"rw_flags": 4, "fsync_flags": 4, "poll_events": 2, "poll32_events": 4, "sync_range_flags": 4, "msg_flags": 4, "timeout_flags": 4,
@@ -229,13 +904,52 @@ def build(name, params, fields, ops):
     _, fie = union("__bindgen_anon_5", {"file_index", "splice_fd_in"})
     c = {
         "name": name,
-        "opcode": tr(fields["opcode"]), "flags": tr(fields["flags"]), "ioprio": tr(fields["ioprio"]), "fd": tr(fields["fd"]),
-        "off": tr(offe), "addr": tr(addre), "len": tr(fields["len"]), "opflags": tr(ofe), "opflagsBytes": u3[ofn],
-        "userData": tr(fields["user_data"]), "bufIndex": tr(bie), "personality": tr(fields["personality"]), "fileIndex": tr(fie),
+        "opcode": tr(fields["opcode"], 1), "flags": tr(fields["flags"], 1), "ioprio": tr(fields["ioprio"], 2), "fd": tr(fields["fd"], 4),
+        "off": tr(offe, 8), "addr": tr(addre, 8), "len": tr(fields["len"], 4), "opflags": tr(ofe, u3[ofn]), "opflagsBytes": u3[ofn],
+        "userData": tr(fields["user_data"], 8), "bufIndex": tr(bie, 2), "personality": tr(fields["personality"], 2), "fileIndex": tr(fie, 4),
         "offName": offn, "opflagsName": ofn,
     }
     c["operands"] = operands
     return c
+
+
+def extract():
+    raw = open(SRC).read()
+    ops = opcode_numbers(strip_comments(raw))
+    fns = scan_items(tokenize(raw))
+    ctors = []
+    for fn in fns:
+        if fn.impl != IMPL_TYPE or not fn.name.startswith("new_") or not fn.vis.startswith("pub"):
+            continue
+        if fn.ret not in ("Self", IMPL_TYPE):
+            continue            # not an SQE constructor (sqe_table_complete states which ones must be in the table)
+        if fn.problem:
+            raise Untranslatable("%s: %s" % (fn.name, fn.problem))
+        ev = Evaluator(fns, fn.name)
+        body = parse_body(fn, fn.name)
+        val = ev.block(body, {p: ("param", p) for p, _ in fn.params}, [fn.name])
+        if val[0] != "wrap":
+            raise Untranslatable("%s: the body does not evaluate to `Self(%s { .. })` but to `%s`" % (fn.name, RECORD, show(val)[:80]))
+        c = build(fn.name, fn.params, val[1][2], ops)
+        c["via"] = {"inlined": ev.inlined, "struct_updates": ev.struct_updates, "lets": ev.lets}
+        ctors.append(c)
+    if not ctors:
+        raise Untranslatable("no constructors found")
+    names = [c["name"] for c in ctors]
+    if len(set(names)) != len(names):
+        raise Untranslatable("constructor defined more than once (cfg variants?): %s" % sorted(n for n in set(names) if names.count(n) > 1))
+    return ctors
+
+
+def via_summary(ctors):
+    """how the table rows were obtained (evidence): constructors whose value went through an inlined helper fn / struct-update / let"""
+    helpers = sorted({h for c in ctors for h in c["via"]["inlined"]})
+    return {"constructors": len(ctors),
+            "through_inlined_helper_fn": sorted(c["name"] for c in ctors if c["via"]["inlined"]),
+            "through_struct_update": sorted(c["name"] for c in ctors if c["via"]["struct_updates"]),
+            "with_let_bindings": sorted(c["name"] for c in ctors if c["via"]["lets"]),
+            "helpers_inlined": helpers,
+            "plain_literal": sum(1 for c in ctors if not c["via"]["inlined"] and not c["via"]["struct_updates"] and not c["via"]["lets"])}
 
 
 def render(ctors):
@@ -265,8 +979,25 @@ def regenerate():
     return ctors, old != text
 
 
+def last_generated():
+    """operand lists of the table generated last (Gen/SqeCtors.lean as it is on disk): used by checks/c18.py to keep searching for
+    a failing input when the current source cannot be translated"""
+    if not os.path.exists(OUT):
+        return []
+    out = []
+    for m in re.finditer(r'name := "(\w+)", operands := \[(.*?)\],\n', open(OUT).read()):
+        out.append({"name": m.group(1), "operands": re.findall(r'\("([^"]+)", \.(\w+)\)', m.group(2))})
+    return out
+
+
 if __name__ == "__main__":
-    cs, ch = regenerate()
-    print("%d constructors, %s" % (len(cs), "rewritten" if ch else "unchanged"))
-    for c in cs:
-        print(c["name"], [n for n, _ in c["operands"]])
+    import sys
+    if "--dry" in sys.argv:
+        cs = extract()
+        sys.stdout.write(render(cs))
+        sys.stderr.write(repr(via_summary(cs)) + "\n")
+    else:
+        cs, ch = regenerate()
+        print("%d constructors, %s" % (len(cs), "rewritten" if ch else "unchanged"))
+        for c in cs:
+            print(c["name"], [n for n, _ in c["operands"]], c["via"])
